@@ -155,9 +155,9 @@ CLAIMED = {
              'non-thread-safe build has no lock and only the two global records. Decides race-freedom for every '
              'interleaving rather than sampling schedules.',
         design_ref='DESIGN.md §5 C09, §4 A3/A6',
-        note='One known finding (libc utmp cursor shared between threads, replayed deterministically, not repaired); two '
-             'races found on the pinned tree were replayed under ThreadSanitizer and repaired. Not decided: record '
-             'contents under actual interleavings.',
+        note='Three defects found on the pinned tree were replayed (two under ThreadSanitizer, the shared libc utmp cursor '
+             'with a deterministic harness) and repaired; no open finding. Not decided: record contents under actual '
+             'interleavings.',
         technique='static analysis: lockset/typestate dataflow + static-storage write enumeration + deny-list'),
     'C16': dict(
         category='other',
